@@ -147,6 +147,20 @@ def _ab_fixture(ctx):
     return _STATE['ab']
 
 
+def _ab_index(ctx):
+    """Every generation of the A/B fixture as an explicitly keyed asset.Instance -> (registry, project, release, gen)."""
+    if 'ab_index' not in _STATE:
+        directories = _ab_fixture(ctx)
+        _STATE['ab_index'] = {
+            asset.Instance(p, r, g, d): (i, p, r, g)
+            for i, d in enumerate(directories)
+            for p in PROJECTS
+            for r in AB_RELEASES
+            for g in range(1, AB_GENS + 1)
+        }
+    return _STATE['ab_index']
+
+
 def _describe(instance) -> str:
     try:
         return str(instance)
@@ -239,8 +253,8 @@ def abtest_spec(draw):
         variants.append(item)
     n = draw(
         st.one_of(
-            st.integers(1, 60), st.integers(1, 60), st.integers(61, 300), st.integers(61, 300), st.integers(301, 1000),
-            st.just(2000),
+            st.integers(1, 60), st.integers(1, 60), st.integers(1, 60), st.integers(61, 300), st.integers(61, 300),
+            st.integers(61, 300), st.integers(301, 1000), st.sampled_from([500, 1000, 2000]),
         )
     )
     regs = draw(st.sampled_from([[0], [0], [0], [0], [1], [0, 1], [0, 0, 1], [1, 0, 1, 1]]))
@@ -288,9 +302,11 @@ def _serve(ctx, spec, selector, directories, variants, n, regs, ktag, extra=(), 
     fshares = [float(s) for s in ref_shares(targets)]
     wtag = 'uniform-int-weights' if uniform_int(targets) else 'general-weights'
     keys = resolve_variants(variants)
-    expected = [[asset.Instance(p, r, g, d) for p, r, g in keys] for d in directories]
+    index = _ab_index(ctx)  # asset.Instance -> (registry, project, release, generation), through Instance.__hash__/__eq__
+    which = {key: j for j, key in enumerate(keys)}
     stats = runtime.Stats()
     counts = [0] * k
+    devs = [0.0] * k
     seen = {}  # id(instance) -> (instance kept alive, registry index, variant index); a cache over the == classification
     reported = set()
     for i in range(1, n + 1):
@@ -302,22 +318,15 @@ def _serve(ctx, spec, selector, directories, variants, n, regs, ktag, extra=(), 
             return False
         hit = seen.get(id(got))
         if hit is None or hit[0] is not got:
-            found = None
             try:
-                for rr in (r, 1 - r):
-                    for j in range(k):
-                        if got == expected[rr][j]:
-                            found = (rr, j)
-                            break
-                    if found:
-                        break
+                found = index.get(got)
             except Exception as exc:
                 ctx.fail_exc(spec, 'abtest-instance', exc, [ktag, *extra])
                 return False
-            if found is None:
+            if found is None or found[1:] not in which:
                 ctx.fail(spec, 'abtest-instance', 'not-a-variant', f'{prefix}request {i}: got {_describe(got)}', [ktag, *extra])
                 return False
-            hit = seen[id(got)] = (got, found[0], found[1])
+            hit = seen[id(got)] = (got, found[0], which[found[1:]])
         if hit[1] != r:
             key = ('abtest-instance', 'other-registry')
             if key not in reported:
@@ -325,7 +334,13 @@ def _serve(ctx, spec, selector, directories, variants, n, regs, ktag, extra=(), 
                 ctx.fail(
                     spec, key[0], key[1], f'{prefix}request {i} asked registry {r}, instance belongs to registry {hit[1]}', [ktag, *extra]
                 )
-        counts[hit[2]] += 1
+        h = hit[2]
+        counts[h] += 1
+        for j in range(k):
+            devs[j] -= fshares[j]
+        devs[h] += 1.0
+        if devs[h] <= 1 + TOL / 2 and min(devs) >= -1 - TOL / 2:
+            continue  # running deviations (screening only); anything close to the bound is recomputed from the counts
         for j in range(k):
             dev = counts[j] - fshares[j] * i
             if dev > 1 + TOL or dev < -1 - TOL:
@@ -745,10 +760,10 @@ def check_explicit(ctx, spec):
 # ---- campaigns -------------------------------------------------------------------------------------------------------------
 def campaigns(ctx):
     return [
-        Campaign('abtest', abtest_spec(), check_abtest, 1500, 20000),
-        Campaign('latest', latest_spec(), check_latest, 500, 4000),
+        Campaign('abtest', abtest_spec(), check_abtest, 1300, 20000),
+        Campaign('latest', latest_spec(), check_latest, 400, 4000),
         Campaign('explicit', explicit_spec, check_explicit, 150, 1000),
-        Campaign('pool', pool_spec(), check_pool, 40, 300),
+        Campaign('pool', pool_spec(), check_pool, 30, 300),
     ]
 
 
